@@ -132,6 +132,13 @@ def gen_cases(rng, tier, count=None):
                  "algo": "%s|%s" % (algo, algoB), "part": "%s|%s" % (A["part"], B["part"]), "box": A["box"],
                  "n": A["n"], "T": A["T"], "reward": A["reward"], "np_seed": A["np_seed"], "params": {},
                  "_cost": A["_cost"] + B["_cost"]}
+        if k == 0 and i % 20 == 0:
+            # the light algorithms with larger budgets and the recommendation asked after every round (StroquOOL has
+            # two or more candidates only from n = 200 on)
+            la = ["StroquOOL", "StroquOOL", "SequOOL", "SOO", "StoSOO", "DOO", "Zooming"][(i // 20) % 7]
+            c = TW.safe_case(rng, la, tier, n_choices=[300, 500, 1000], fams=["noisy", "unit", "drift", "cl_sine", "cl_garland"])
+            c["np_seed"] = int(c["np_seed"]) // 3 * 3
+            c["kind"] = "repro"
         if rng.random() < 0.5:
             # the arity of a K-ary partition is bound with functools.partial on the library's own class instead of a
             # subclass per K: the instances of one run (and of the two interleaved runs) then share one class object
@@ -151,12 +158,17 @@ def run_repro(case, viol, obs):
     fp0 = None
     # the two runs start from differently poisoned heaps (freed NumPy blocks full of NaN vs full of zeros): a read of
     # uninitialised memory (np.empty) makes them differ
+    # a third of the twins also ask for the recommendation after every round (queries that raise because they come
+    # too early are recorded as such in both runs)
+    qs = range(case["T"]) if case.get("np_seed", 0) % 3 == 0 and case["algo"] != "VROOM" else None
     with EntropyGuard() as g:
-        r1 = TW.run_points(case, poison=float("nan"))
+        r1 = TW.run_points(case, poison=float("nan"), queries=qs)
     if r1["crash"]:
         return "crash:" + r1["crash"]
     ub = r1.get("user_box")
-    r2 = TW.run_points(case, poison=[0.0, float("inf"), -1.0][case.get("np_seed", 0) % 3])
+    r2 = TW.run_points(case, poison=[0.0, float("inf"), -1.0][case.get("np_seed", 0) % 3], queries=qs)
+    if r1["qpoints"] != r2["qpoints"] and not r2["crash"]:
+        V(viol, "C14:same_seed_and_inputs_give_different_recommendation", between_rounds=True)
     obs["points_compared"] += len(r1["points"]) + 1
     obs["twin_runs"] += 1
     d = TW.first_diff(r1["points"], r2["points"])
@@ -177,6 +189,11 @@ def run_repro(case, viol, obs):
 def check_box(r, case, viol, obs):
     """the domain object handed to PyXAB (run_points hands over the very object it keeps) is compared with the
     descriptor's values and its nested list identities with those from before the run"""
+    obs["process_state_comparisons"] += 1
+    if r.get("process_state_changed"):
+        # NumPy's floating-point error handling / print options, the recursion limit, the warnings filters: settings
+        # of the whole process - changing them is a channel through which one instance reaches every other one
+        V(viol, "C14:process_wide_state_changed_by_a_run", changed=r["process_state_changed"], algo=case.get("algo"))
     if r.get("crash") or "user_box" not in r:
         return
     ub = r["user_box"]
